@@ -1361,3 +1361,14 @@ Lemma load_shape_raises d :
   load (SLocal d (LJson (JList [JDict [(s "name", JStr (s "m")); (s "external_url", JNum 1);
                                         (s "obj", JStr (s "module"))]]))) = ORaised AttributeError.
 Proof. repeat split; reflexivity. Qed.
+
+Lemma consistent_of_nodup rs : NoDup (map r_id rs) -> consistent rs.
+Proof.
+  induction rs as [|r rs IH]; intros ND r1 r2 H1 H2 E; [destruct H1|].
+  simpl in ND. inversion ND as [|? ? Hn ND']; subst.
+  destruct H1 as [<-|H1]; destruct H2 as [<-|H2].
+  - reflexivity.
+  - exfalso. apply Hn. rewrite E. now apply in_map.
+  - exfalso. apply Hn. rewrite <- E. now apply in_map.
+  - now apply IH.
+Qed.
